@@ -198,6 +198,20 @@ def cascade_stream(ctx, n):
                           "oracle": {"name": "c02Holds", "result": False, "witness": wit}})
 
 
+def long_storm_case(rng):
+    """one wet spell of a million steps or more (a season of one-second data, or rain that never quite stops above a low
+    threshold) with short rises far apart in it: preferences are decided by durations that differ by one step while the
+    positions differ by millions"""
+    n = rng.randint(1_200_000, 4_000_000)
+    length = rng.randint(3, 40)
+    a = rng.randint(0, 1000)
+    b = rng.randint(n - 50_000, n - 100)
+    rises = [(a, a + length), (b, b + length - rng.choice([1, 1, 2]))]
+    if rng.random() < 0.5:
+        rises.insert(1, (n // 2, n // 2 + length - rng.choice([1, 3])))
+    return [(0, n)], rises
+
+
 def disamb_stream(ctx, n, cases=None):
     common.import_spowtd()
     import spowtd.classify as cm
@@ -259,11 +273,13 @@ def run(ctx):
         graph_stream(ctx, 1500)
         disamb_stream(ctx, 1500)
         cascade_stream(ctx, 1)
+        disamb_stream(ctx, 0, cases=[long_storm_case(ctx.rng) for _ in range(4)])
         R.run_records(ctx, "C02", 200, field=1)
     else:
         graph_stream(ctx, 40000)
         disamb_stream(ctx, 40000)
         cascade_stream(ctx, 5)
+        disamb_stream(ctx, 0, cases=[long_storm_case(ctx.rng) for _ in range(40)])
         R.run_records(ctx, "C02", 1500, exhaustive_n=4, field=8)
 
 
